@@ -428,6 +428,18 @@ def r14(ctx):
             for a in Slicer(ctx.w).atoms(ps, t["args"][0]):
                 if a.startswith("call:tokio::io::ReadBuf::") or a.startswith("arg:2:"):
                     bad.add(a)
+    # `Some(avail).filter(|rest| !rest.is_empty())`: the decision is the predicate handed to Option::filter
+    for bb, t in ps.calls(re.compile(r"^std::option::Option::filter$")):
+        rets.append(bb)
+        for cid in closure_args(ps, t):
+            cb = ctx.w.bodies.get(cid)
+            for bb2, t2 in (cb.calls() if cb else []):
+                if t2["f"].startswith("tokio::io::ReadBuf::"):
+                    bad.add("call:" + t2["f"])
+                for a in t2["args"]:
+                    for x in Slicer(ctx.w).atoms(cb, a):
+                        if x.startswith("call:tokio::io::ReadBuf::") or (x.startswith("arg:2:") and x.endswith("::put_slice")):
+                            bad.add(x)
     ctx.inst(R, "put_slice:rest-decided-by-the-bytes", bool(rets) and not bad, ps.span, "the rest is stashed whenever bytes remain after the copy" if rets and not bad else
              (f"ReadHalf::put_slice decides whether something is left from the caller's buffer ({sorted(bad)}) instead of from the bytes that remain after the copy: "
               "on a partly filled ReadBuf the tail of a segment is silently dropped" if bad else "put_slice no longer returns Option<rest>: re-derive"))
